@@ -309,6 +309,7 @@ def rawrecords_start_checks(crate):
                                         (r"^core::slice::(<impl[^>]*>::)?split_at$", h_split_at)] + BYTES_SUMMARIES,
                        havoc=[r"^<Header as Default>::default$", r"^<record::record::Header as Default>::default$"])
     ex.await_hook = file_read_hook()
+    ex.classify_reads = True
     hsize_def = z3.BitVec("default_header_serialized_size", 64)
 
     def call_hook(ex_, st_, cname, args, dty):
